@@ -217,10 +217,8 @@ def translate_expression(expr, env: Env) -> TExp:  # noqa: C901
             if arg_l != arg_r:
                 raise TypeErrorException(tleft[0], tcomp[0])
 
-            if isinstance(expr.ops[0], ast.Eq):
+            if isinstance(expr.ops[0], ast.Eq) or isinstance(expr.ops[0], ast.NotEq):
                 op = Qbool.eq
-            elif isinstance(expr.ops[0], ast.NotEq):
-                op = Qbool.neq
             else:
                 raise exceptions.OperationNotSupportedException(bool, expr.ops[0])
 
@@ -234,6 +232,10 @@ def translate_expression(expr, env: Env) -> TExp:  # noqa: C901
                     for si in range(left.BIT_SIZE):
                         c = And(c, op((bool, tleft[1][idx]), (bool, tcomp[1][idx]))[1])
                         idx += 1
+
+            # Tuples differ if any of the elements differ
+            if isinstance(expr.ops[0], ast.NotEq):
+                c = Not(c)
 
             return (bool, c)
 
